@@ -181,7 +181,7 @@ def composition_contract(L):
 
     def instances(tier):
         out = []
-        fam = [(1, 1), (2, 1), (1, 2)] if tier == "quick" else [(q, 1) for q in range(0, 7)] + [(2, 2), (3, 2)]
+        fam = [(1, 1), (2, 1), (1, 2)] if tier == "quick" else [(q, 1) for q in range(0, 7)] + [(2, 2)]
         for q, d in fam:
             def make(rng, q=q, d=d):
                 sigma = jnp.asarray(rng.uniform(0.5, 2.0, size=(d,) if L is BlockL else ()))
